@@ -24,6 +24,7 @@ FUEL = "(200 * 100)%nat"
 DEFECTS = {
     "mid": "C17:mid-start-beyond-end-aborts-process",
     "punch_in_cv": "C17:punch-inside-calculate-values-segfaults",
+    "punch_leak": "C17:punch-inside-calculate-values-leaks-into-user-punch-columns",
 }
 
 
@@ -34,7 +35,7 @@ def gen():
 # ----------------------------------------------------------------------------- program generator
 
 SAFE_CHARS = "abcdefghijklmnopqrstuvwxyzABCDEFGHIJKLMNOPQRSTUVWXYZ0123456789 _.,+-*/=<>()!%&|~{}@"
-NUMV = ["va", "vb", "vc", "vd", "ve", "vf", "averyveryverylongname_x", "averyveryverylongname_y", "Vg"]
+NUMV = ["va", "vb", "vc", "vd", "ve", "vf", "averyveryverylongnamx", "averyveryverylongnamy", "Vg"]
 TNTV = ["ta", "tb"]
 STRV = ["sa$", "sb$", "sc$"]
 ARRS = [("qa", [6]), ("qb", [3, 4])]
@@ -522,6 +523,11 @@ class Gen:
                 else:
                     t = "PUT(o_, 7, 0) : SAVE (0.125 + 0.03125 * (o_ MOD 5)) * TIME"
             res.append("%d %s" % (num[lid], t))
+        if host == "rate":
+            # a rate program is invoked many times per time step and the PUT/GET store survives between invocations:
+            # reset every key the grammar uses so that each invocation computes the same thing
+            keys = ["%d" % a for a in (1, 2, 3)] + ["%d, %d" % (a, b) for a in (1, 2, 3) for b in (1, 2, 3)]
+            res.insert(0, "5 " + " : ".join("PUT(0, %s)" % k for k in keys))
         return res
 
 
@@ -905,9 +911,14 @@ def judge(case, model, res):
     if len(model) < 2 or model[1]["kind"] != "done":
         return "outside", "reader not evaluated"
     exp = [v for k, v in model[1]["outs"] if k == "punch"]
-    got = table_row(res)
-    skip = 1 if host == "put" else 2          # V_cv1 | k_r1 dk_r1
-    lead, got = got[:skip], [g for g in got[skip:] if g is not None]
+    tab = res.get("tables", {}).get("1") or [[]]
+    heads = [vlib.cell_value(c) for c in tab[0]]
+    row = table_row(res)
+    own = ["V_cv1"] if host == "put" else ["k_r1", "dk_r1"]          # columns written by the host itself
+    if any(h not in heads for h in own) or len(row) != len(heads):
+        return "VIOLATION", "%s host: columns %r missing in %r" % (host, own, heads)
+    lead = [row[heads.index(h)] for h in own]
+    got = [g for h, g in zip(heads, row) if h not in own and g is not None]
     if len(got) != len(exp):
         return "VIOLATION", "%s host delivered %d values, reference %d" % (host, len(got), len(exp))
     for j, (g, e) in enumerate(zip(got, exp)):
@@ -996,6 +1007,9 @@ def run(ctx):
         # the known crash (reported as a finding with a stable key, see notes/C17.md)
         cases.append({"host": "punch", "lines": ["10 PUNCH MID$(\"abc\", 7, 2)"], "origin": "defect probe", "defect": "mid"})
         cases.append({"host": "put", "lines": ["10 PUNCH 1", "20 SAVE 1"], "origin": "defect probe", "defect": "punch_in_cv"})
+        cases.append({"host": "put", "lines": ["10 PUNCH 11, 22, 33", "20 SAVE 1"], "origin": "defect probe", "defect": "punch_leak"})
+        cases.append({"host": "punch", "lines": ["10 PUNCH MID$(\"abc\", 4, 2) + \"|\", MID$(\"abc\", 5) + \"|\", LEN(MID$(\"\", 2, 1))"],
+                      "origin": "defect probe", "defect": "mid"})
         nprog = ctx.n(150, 1500)
         feats = {}
         for k in range(nprog):
